@@ -18,6 +18,7 @@ A run of `check <P>`:
 import hashlib
 import json
 import os
+import random
 import re
 import subprocess
 import sys
@@ -45,7 +46,7 @@ PROPS = {
     "C05": dict(ops=["map", "filter", "scan", "take", "skip", "merge", "concat", "combine",
                      "flatten", "share"], kinds=["C05", "C04:Orphan"], thms="C05"),
     "C17": dict(ops=ALL_SRC + ["for_each"], kinds=["C17"], thms="C17", trees="std"),
-    "C07": dict(ops=UNARY, kinds=["C07"], thms="C07", skip_headers=["op=take n=0"]),
+    "C07": dict(ops=UNARY, kinds=["C07"], thms="C07", skip_headers=["op=take n=0"]),  # extra_check added below
     "C08": dict(ops=["merge"], kinds=["C08"], thms="C08"),
     "C09": dict(ops=["concat"], kinds=["C09"], thms="C09"),
     "C10": dict(ops=["combine"], kinds=["C10"], thms="C10"),
@@ -880,6 +881,8 @@ def replay(prop, path):
     spec = PROPS.get(prop, {})
     variant = payload.get("variant", "plain")
     build((variant,))
+    if "pipeline" in payload and "script" not in payload:
+        return replay_pipeline(prop, path, payload)
     s = payload["script"]
     m = run_model([s])[0]
     r = run_real([s], variant)[0]
@@ -894,6 +897,122 @@ def replay(prop, path):
         print("VIOLATION property=%s replay=%s" % (prop, path))
         return 1
     return 0
+
+
+def replay_pipeline(prop, path, payload):
+    """a closed pipeline (or operator tree) replay: run it on the crate again and compare with the recorded expectation
+    (values given to f, completion; Iterator::next counts too when the expectation came from the interpreter directly)"""
+    pl = payload["pipeline"]
+    exp = payload.get("expected_from_list_function", "")
+    if pl.startswith("op=tree"):
+        got = run_real([pl], "plain")[0]
+        want = run_model([pl])[0][0]
+        print("tree     :", pl)
+        print("expected :", want)
+        print("crate    :", got)
+        differs = want != got
+    else:
+        h = sh([BIN + "/cbharness-plain", "pipe"], inp=pl + "\n", timeout=600)
+        got = (h.stdout.splitlines() or ["(no output: the crate did not finish)"])[0].strip()
+        surrogate = ": " in exp.split("F:")[0]
+        want = exp[exp.index("F:"):] if "F:" in exp else exp
+        if not surrogate:
+            m = sh([DRIVER, "pipe"], inp=pl + "\n")
+            want = (m.stdout.splitlines() or [want])[0].strip()
+        strip = (lambda t: re.sub(r" nexts=\d+", "", t)) if surrogate else (lambda t: t)
+        print("pipeline :", pl)
+        print("expected :", want)
+        print("crate    :", got)
+        differs = strip(want) != strip(got)
+    if differs:
+        print("VIOLATION property=%s replay=%s" % (prop, path))
+        return 1
+    return 0
+
+
+BIG = ["18446744073709551615", "18446744073709551614", "9223372036854775808", "9223372036854775807", "4294967296"]
+
+
+def big_count_probe():
+    """counts near the limits of usize (the model's counters are unbounded naturals and cannot be run there):
+    take(N)/skip(N) with N far beyond the length of the input must behave like take(len+5)/skip(len+5); the
+    expectation is computed by the Coq lazy interpreter on the surrogate count"""
+    real_lines, model_lines = [], []
+    for big in BIG:
+        for xs, pre, post in (("1,2,3", "", ""), ("-", "", ""), ("4,5,6,7", "map:2:1;", ";filter:2:1"),
+                              ("1,2,3,4,5", "", ";take:2")):
+            for st in ("take", "skip"):
+                real_lines.append("xs=%s inf=- stages=%s%s:%s%s" % (xs, pre, st, big, post))
+                model_lines.append("xs=%s inf=- stages=%s%s:%d%s" % (xs, pre, st, 12, post))
+    m = sh([DRIVER, "pipe"], inp="\n".join(model_lines) + "\n")
+    h = sh([BIN + "/cbharness-plain", "pipe"], inp="\n".join(real_lines) + "\n", timeout=600)
+    if m.returncode != 0 or h.returncode != 0:
+        raise Fail("big-count probe failed to run: " + (m.stderr + h.stderr)[-500:])
+    bad = [(r, a.strip(), b.strip()) for r, a, b in zip(real_lines, m.stdout.splitlines(), h.stdout.splitlines())
+           if a.strip() != b.strip()]
+    return bad, len(real_lines)
+
+
+def shared_source_probe(seed, count=150):
+    """one source value subscribed more than once: concat!(s, .., s) where s is the pipeline so far (the same Arc).
+    Every subscription of a callbag source is independent, so the program computes l ++ .. ++ l for l = the list
+    function of s; the expectation is assembled from two runs of the Coq lazy interpreter (s alone, then the rest of
+    the pipeline over the concatenation).  Iterator::next counts are not compared here."""
+    rnd = random.Random(seed * 7919 + 13)
+
+    def stage():
+        k = rnd.randrange(5)
+        return ["map:%d:%d" % (rnd.randrange(1, 4), rnd.randrange(3)), "filter:%d:%d" % (rnd.randrange(2, 4), rnd.randrange(2)),
+                "scan:%d:%d" % (rnd.randrange(3), rnd.randrange(3)), "take:%d" % rnd.randrange(1, 5),
+                "skip:%d" % rnd.randrange(1, 4)][k]
+
+    def vals(line, tag):
+        part = line.split("|")[0 if tag == "F" else 1]
+        return [w[5:] for w in part.split() if w.startswith("user:")], ("done=1" in part)
+    cases = []
+    for _ in range(count):
+        xs = [str(rnd.randrange(10)) for _ in range(rnd.randrange(0, 6))]
+        pre = [stage() for _ in range(rnd.randrange(0, 3))]
+        post = [stage() for _ in range(rnd.randrange(0, 3))]
+        members = []
+        for _ in range(rnd.randrange(2, 5)):
+            members.append("_" if rnd.randrange(3) else ",".join(str(rnd.randrange(10)) for _ in range(rnd.randrange(0, 3))) or "-")
+        if members.count("_") < 2:
+            members += ["_", "_"]
+        cases.append((xs, pre, members, post))
+    fmt = lambda xs, st: "xs=%s inf=- stages=%s" % (",".join(xs) if xs else "-", ";".join(st) if st else "-")
+    m1 = sh([DRIVER, "pipe"], inp="\n".join(fmt(xs, pre) for xs, pre, _, _ in cases) + "\n")
+    if m1.returncode != 0:
+        raise Fail("shared-source probe (model, first half) failed: " + m1.stderr[-500:])
+    second, real_lines = [], []
+    for (xs, pre, members, post), l in zip(cases, m1.stdout.splitlines()):
+        inner, _ = vals(l, "P")
+        joined = []
+        for m in members:
+            joined += inner if m == "_" else ([] if m == "-" else m.split(","))
+        second.append(fmt(joined, post))
+        real_lines.append(fmt(xs, pre + ["cat:" + "/".join(members)] + post))
+    m2 = sh([DRIVER, "pipe"], inp="\n".join(second) + "\n")
+    h = sh([BIN + "/cbharness-plain", "pipe"], inp="\n".join(real_lines) + "\n", timeout=600)
+    if m2.returncode != 0 or h.returncode != 0:
+        raise Fail("shared-source probe failed to run: " + (m2.stderr + h.stderr)[-500:])
+    hl = h.stdout.splitlines()
+    bad = []
+    for i, (r, a) in enumerate(zip(real_lines, m2.stdout.splitlines())):
+        b = hl[i] if i < len(hl) else "(no output: the crate did not finish)"
+        if "|" not in b or vals(a, "F") != vals(b, "F") or vals(a, "P") != vals(b, "P"):
+            bad.append((r, a.strip(), b.strip()))
+    return bad, len(real_lines)
+
+
+def c07_extra(spec, scripts, real, variant, tier):
+    bad, n = big_count_probe()
+    viols = [(p_, "C07:BigCount", dict(pipeline=p_, expected_from_list_function=a, observed_on_crate=b))
+             for p_, a, b in bad[:3]]
+    return viols, dict(big_count_pipelines=n, big_count_failures=len(bad))
+
+
+PROPS["C07"]["extra_check"] = c07_extra
 
 
 STATIC_PIPES = [
@@ -942,6 +1061,11 @@ def c06_check(prop, tier, seed, t0):
         treal += part[1]
     tbad = [(t, m[0], h) for t, m, h in zip(trees, tmodel, treal) if m[0] != h]
     bad += [(t, "net of component models: " + m, h) for t, m, h in tbad]
+    bbad, nbig = big_count_probe()
+    bad += [(p_, "count near usize::MAX, expectation from the surrogate count: " + a, b) for p_, a, b in bbad]
+    sbad, nshared = shared_source_probe(seed, 150 if tier == "quick" else 3000)
+    bad += [(p_, "one source value subscribed several times, expectation from its list function repeated: " + a, b)
+            for p_, a, b in sbad]
     out, status = [], 0
     for p, m, h in bad[:3]:
         path = write_replay(prop, dict(kind="failing-history", property=prop, pipeline=p,
@@ -973,6 +1097,7 @@ def c06_check(prop, tier, seed, t0):
         traces_validated_against_impl=len(pipes) + len(trees) - len(bad), correspondence_mismatches=len(bad),
         pipeline_depth_histogram=depth_hist,
         operator_trees_run_as_nets_of_component_models=len(trees), net_vs_crate_mismatches=len(tbad),
+        big_count_pipelines=nbig, shared_source_pipelines=nshared,
         samples=[dict(pipeline=p, crate=h) for p, h in list(zip(pipes, real))[:2] + list(zip(pipes, real))[-2:]],
     )
     write_evidence(prop, tier, seed, t0, cov, len(bad),
